@@ -243,6 +243,13 @@ fn gen_cases(a: &Args) -> Vec<Case> {
     let (dense, nrand) = if a.thorough() { (40_000u128, 40_000usize) } else { (1_000u128, 1_000usize) };
     let mut fees: Vec<u128> = (0..=dense).collect();
     fees.extend(boundary_values());
+    // every integer literal in the modelled source (and its neighbours): a change that
+    // special-cases one input has to name it
+    for l in harvest_literals(&["packages/sg1/src/lib.rs"]) {
+        for d in [l.saturating_sub(1), l, l.saturating_add(1), l.saturating_mul(2), l.saturating_mul(2).saturating_add(1)] {
+            fees.push(d);
+        }
+    }
     for _ in 0..nrand {
         fees.push(rng.u128_any_size());
     }
@@ -311,9 +318,13 @@ pub fn run(a: &Args) {
     let out = OutDir::new(&a.out);
     let mut rep = Report { property: "C06".into(), tier: a.tier.clone(), seed: a.seed, ..Default::default() };
     let cases: Vec<Case> = if let Some(p) = &a.replay {
+        #[derive(Deserialize)]
+        struct ReplayFile {
+            case: Case,
+        }
         let txt = std::fs::read_to_string(p).expect("replay file");
-        let v: serde_json::Value = serde_json::from_str(&txt).expect("replay json");
-        vec![serde_json::from_value(v["case"].clone()).expect("case")]
+        let rf: ReplayFile = serde_json::from_str(&txt).expect("replay json");
+        vec![rf.case]
     } else {
         gen_cases(a)
     };
@@ -334,13 +345,19 @@ pub fn run(a: &Args) {
         if let Some(what) = monitor(c, &o.out) {
             nviol += 1;
             if nviol <= 20 {
-                let body = serde_json::json!({"property": "C06", "case": c, "observed": format!("{:?}", o.out), "violation": what});
-                let path = out.write_replay(&format!("C06-{}.json", nviol), &serde_json::to_string_pretty(&body).unwrap());
+                // composed by hand: serde_json::Value cannot hold a u128, to_string/from_str can
+                let body = format!(
+                    "{{\n \"property\": \"C06\",\n \"case\": {},\n \"observed\": {},\n \"violation\": {}\n}}\n",
+                    serde_json::to_string(c).unwrap(),
+                    serde_json::to_string(&format!("{:?}", o.out)).unwrap(),
+                    serde_json::to_string(&what).unwrap()
+                );
+                let path = out.write_replay(&format!("C06-{}.json", nviol), &body);
                 rep.violations.push(Violation { key: format!("C06:{}", kind(c)), what: format!("{} on {:?}: {}", kind(c), c, what), replay: path });
             }
         }
         if rep.samples.len() < 3 && (i % 997 == 5 || a.replay.is_some()) {
-            rep.samples.push(serde_json::json!({"case": c, "impl_output": format!("{:?}", o.out)}));
+            rep.samples.push(serde_json::json!({"case": format!("{:?}", c), "impl_output": format!("{:?}", o.out)}));
         }
         coq_cases.push(o.coq);
     }
